@@ -2,6 +2,7 @@ import Refine.Model.Quality
 import Refine.Lemmas.ScalarReal
 import Refine.Lemmas.GeomReal
 import Refine.Lemmas.QualityReal
+import Refine.Lemmas.QualityDeriv
 import Refine.Props.C15
 import Mathlib.Tactic.Ring
 import Mathlib.Tactic.Linarith
@@ -13,6 +14,7 @@ import Mathlib.Tactic.SplitIfs
 -/
 namespace Refine.Props.C15Quality
 open Refine Refine.Model.Geom Refine.Model.Quality Refine.ScalarReal Refine.GeomReal Refine.QualityReal
+open Refine.QualityDeriv Refine.Props.C15
 
 /-! ### value consistency: the quality returned together with the derivative IS the plain quality
     (the C keeps two copies of each formula; the tie binds each copy to its model, these theorems bind the models) -/
@@ -83,5 +85,86 @@ theorem tri_dquality_value (sel : QSel) (dq0 : V3 ℝ) (n0 n1 n2 : QNode ℝ) :
   · simp only [triDquality, triQuality, Except.map, tri_epic_dquality_value]
   · exact tri_jac_dquality_value dq0 n0 n1 n2
   · rfl
+
+/-! ### derivative exactness (jac tet): the pieces are exact polynomials, the combination is the derivative -/
+
+/-- `Σ eᵀ M e` over the six edges is an exact quadratic in the position of node 0: the coded `d_l2`
+    (`-d_e0 - d_e1 - d_e2` of `ref_matrix_vt_m_v_deriv`) is its linear term, the remainder is `3 δᵀMδ`
+    (three edges move).  Together with `tetVol_affine0` (Props/C15: the volume is affine, `d_volume` exact)
+    every ingredient of the coded gradient is exact, for every displacement `δ`. -/
+theorem tetJacL2_expand (m : M6 ℝ) (x0 x1 x2 x3 δ : V3 ℝ) :
+    tetJacL2 m (vadd x0 δ) x1 x2 x3 =
+      tetJacL2 m x0 x1 x2 x3 + vdot (tetJacDL2 m x0 x1 x2 x3) δ + 3 * vtMv m δ :=
+  tetJacL2_expand_aux m x0 x1 x2 x3 δ
+
+/-- on its smooth branch (`volume > min_volume`, `exp_m`/`jacob_m` succeed, `num/l2` divisible)
+    `ref_node_tet_jac_quality` returns `tetJacSmooth`: `36/3^(1/3) · (√det M̄ · vol)^(2/3) / Σ eᵀM̄e` -/
+theorem tetJacQuality_smooth (minVol : ℝ) (n0 n1 n2 n3 : QNode ℝ) (mx : Model.Matrix.M6 ℝ)
+    (j : Model.Matrix.M33 ℝ)
+    (hexp : Model.Matrix.expM (toMx (avg4 n0.l n1.l n2.l n3.l)) = .ok mx)
+    (hjac : Model.Matrix.jacobM mx = .ok j)
+    (hvol : minVol < tetVol n0.x n1.x n2.x n3.x)
+    (hdiv : Scalar.divisible ((Real.sqrt (Model.Matrix.detM mx) * tetVol n0.x n1.x n2.x n3.x) ^ ((2 : ℝ) / 3))
+              (tetJacL2 (ofMx mx) n0.x n1.x n2.x n3.x) = true) :
+    tetJacQuality minVol n0 n1 n2 n3 = .ok (tetJacSmooth mx n0.x n1.x n2.x n3.x) := by
+  have hv : (tetVol n0.x n1.x n2.x n3.x <=. minVol) = false := (le_false_iff _ _).mpr hvol
+  unfold tetJacQuality
+  simp only [hv, hexp, hjac, Bool.false_eq_true, if_false, sqrt_eq, mul_eq, pow_eq, twoThirds_eq, hdiv, if_true,
+    div_eq, tetJacSmooth]
+
+/-- the gradient returned by `ref_node_tet_jac_dquality_dnode0` on the smooth branch IS the derivative of the
+    quality with respect to the position of node 0 (vertex metrics fixed): for every direction `δ`, the function
+    `t ↦ quality(x0 + t δ)` has derivative `d · δ` at `t = 0` (Mathlib `HasDerivAt`).
+    `hvim` (`√det · vol ≠ 0`) holds whenever the averaged metric is positive definite, since `vol > min_volume`. -/
+theorem tetJacDquality_hasDerivAt (minVol : ℝ) (n0 n1 n2 n3 : QNode ℝ) (mx : Model.Matrix.M6 ℝ)
+    (j : Model.Matrix.M33 ℝ) (q : ℝ) (d δ : V3 ℝ)
+    (hexp : Model.Matrix.expM (toMx (avg4 n0.l n1.l n2.l n3.l)) = .ok mx)
+    (hjac : Model.Matrix.jacobM mx = .ok j)
+    (hvol : minVol < tetVol n0.x n1.x n2.x n3.x)
+    (hdiv : Scalar.divisible ((Real.sqrt (Model.Matrix.detM mx) * tetVol n0.x n1.x n2.x n3.x) ^ ((2 : ℝ) / 3))
+              (tetJacL2 (ofMx mx) n0.x n1.x n2.x n3.x) = true)
+    (hvim : Real.sqrt (Model.Matrix.detM mx) * tetVol n0.x n1.x n2.x n3.x ≠ 0)
+    (h : tetJacDquality minVol n0 n1 n2 n3 = .ok (q, d)) :
+    HasDerivAt (fun t => tetJacSmooth mx (line n0.x δ t) n1.x n2.x n3.x) (vdot d δ) 0 := by
+  have hv : (tetVol n0.x n1.x n2.x n3.x <=. minVol) = false := (le_false_iff _ _).mpr hvol
+  have hl2 : tetJacL2 (ofMx mx) n0.x n1.x n2.x n3.x ≠ 0 := divisible_ne_zero hdiv
+  unfold tetJacDquality at h
+  simp only [Refine.Props.C15.tetDvol_value, hv, hexp, hjac, Bool.false_eq_true, if_false, sqrt_eq, mul_eq, pow_eq,
+    twoThirds_eq, hdiv, if_true, div_eq, Except.ok.injEq, Prod.mk.injEq] at h
+  obtain ⟨_, hd⟩ := h
+  subst hd
+  have hV := tetVol_line n0.x n1.x n2.x n3.x δ
+  have hL := tetJacL2_line (ofMx mx) n0.x n1.x n2.x n3.x δ
+  have hV0 : tetVol (line n0.x δ 0) n1.x n2.x n3.x = tetVol n0.x n1.x n2.x n3.x := by rw [line_zero]
+  have hL0 : tetJacL2 (ofMx mx) (line n0.x δ 0) n1.x n2.x n3.x = tetJacL2 (ofMx mx) n0.x n1.x n2.x n3.x := by
+    rw [line_zero]
+  have key := hasDerivAt_meanRatio (c36 : ℝ) (Real.sqrt (Model.Matrix.detM mx))
+    (fun t => tetVol (line n0.x δ t) n1.x n2.x n3.x) (fun t => tetJacL2 (ofMx mx) (line n0.x δ t) n1.x n2.x n3.x)
+    _ _ 0 hV hL (by simpa only [hV0] using hvim) (by simpa only [hL0] using hl2)
+  simp only [hV0, hL0] at key
+  refine HasDerivAt.congr_deriv key ?_
+  simp only [vdot, tetJacDL2, negThird_eq, sub_eq, mul_eq, neg_eq, div_eq]
+  field_simp
+  ring
+
+/-! ### symmetry: even permutations of the vertices (the smoother passes the smoothed node first) -/
+
+/-- EPIC tet quality is unchanged by the 3-cycle (0 1 2) … -/
+theorem tet_epic_quality_cycle012 (mv : ℝ) (n0 n1 n2 n3 : QNode ℝ) :
+    tetEpicQuality mv n1 n2 n0 n3 = tetEpicQuality mv n0 n1 n2 n3 := by
+  rw [tetEpicQuality_eq, tetEpicQuality_eq, tetVol_cycle012,
+    ratio_symm n1.x n0.x n1.m n0.m, ratio_symm n2.x n0.x n2.m n0.m]
+  congr 1
+  · simp only [min_assoc, min_left_comm, min_comm]
+  · ring
+
+/-- … and by the 3-cycle (1 2 3); the two generate all twelve even permutations -/
+theorem tet_epic_quality_cycle123 (mv : ℝ) (n0 n1 n2 n3 : QNode ℝ) :
+    tetEpicQuality mv n0 n2 n3 n1 = tetEpicQuality mv n0 n1 n2 n3 := by
+  rw [tetEpicQuality_eq, tetEpicQuality_eq, tetVol_cycle123,
+    ratio_symm n2.x n1.x n2.m n1.m, ratio_symm n3.x n1.x n3.m n1.m]
+  congr 1
+  · simp only [min_assoc, min_left_comm, min_comm]
+  · ring
 
 end Refine.Props.C15Quality
